@@ -179,6 +179,24 @@ def run_single(sc):
                 raised = True
             ev.append(dict(e="reject", kind="malformed:" + sc["what"], raised=raised))
             return dict(meta=dict(tid=sc["tid"], sid=sc["sid"]), ev=ev)
+        if sc["mode"] == "shared_rc":
+            # several Systems created from one rc path in one process: options given to one must not leak into the
+            # next, and a file re-written by save_config must be re-read
+            p = os.path.join(d, "shared.rc")
+            open(p, "w").write("[TDS]\ntf = 12.5\n[PFlow]\nmax_iter = 27\n")
+            a = andes.System(config_path=p, config_option=["TDS.tf=3.5", "PFlow.max_iter=31"], **kw)
+            b = andes.System(config_path=p, **kw)
+            ok1 = (a.TDS.config.tf == 3.5 and a.PFlow.config.max_iter == 31 and b.TDS.config.tf == 12.5 and b.PFlow.config.max_iter == 27)
+            ev.append(dict(e="field", section="TDS", key="tf", is_system=False, channels="file-after-option-on-same-path",
+                           vfile=T(12.5), vopt="none", vdict="none", vdef=T(20.0), veff=T(b.TDS.config.tf), vused="none"))
+            ev.append(dict(e="field", section="PFlow", key="max_iter", is_system=False, channels="file-after-option-on-same-path",
+                           vfile=T(27), vopt="none", vdict="none", vdef=T(25), veff=T(b.PFlow.config.max_iter), vused="none"))
+            a.TDS.config.tf = 7.25
+            a.save_config(p, overwrite=True)
+            c = andes.System(config_path=p, **kw)
+            ev.append(dict(e="roundtrip", same_values=bool(c.TDS.config.tf == 7.25 and c.PFlow.config.max_iter == 31),
+                           same_types=bool(type(c.TDS.config.tf) is float), bad=[], runtime_edit=True))
+            return dict(meta=dict(tid=sc["tid"], sid=sc["sid"]), ev=ev)
         if sc["mode"] == "multi_option":
             raised = None
             try:
